@@ -266,3 +266,27 @@ Definition spec_C11 (sc : escen) (ob : eobs) : bool := spec_batch_runs spec_C11_
 From Flyt Require Import Lifecycle SpecC18 SpecEngine.
 Definition spec_C02x (sc : escen) (ob : eobs) : bool := spec_C02 sc ob && spec_C07 sc ob.
 Definition spec_C17x (sc : escen) (ob : eobs) : bool := spec_C17 sc ob && spec_C06 sc ob.
+
+(* the predicate the C05 check applies: the proved predicate (Spec/SpecEngine.v) together with
+   "a failed run reports a framework error only where the scenario has a cause for one" (a flow
+   without a start node, a reference to a node that does not exist).  This extra clause is not
+   proved of the model in general; every case file evaluates it on the model's own observation
+   as well (a false value there is reported as a defect of the check, not of the code). *)
+Definition known_node (sc : escen) (n : nid) : bool :=
+  match table_of (es_nodes sc) n with Some _ => true | None => false end.
+Definition fw_possible (sc : escen) : bool :=
+  negb (known_node sc (es_root sc)) ||
+  existsb (fun nd => match snd nd with
+                     | NFlow None _ => true
+                     | NFlow (Some st) conns =>
+                         negb (known_node sc st) ||
+                         existsb (fun c => match snd c with Some t => negb (known_node sc t) | None => false end) conns
+                     | _ => false
+                     end) (es_nodes sc).
+Definition fw_clause (sc : escen) (ob : eobs) : bool :=
+  forallb (fun r : erun => let '(_, oc, _) := r in
+             match snd oc with
+             | Some e => match class_of e with KFw => fw_possible sc | _ => true end
+             | None => true
+             end) ob.
+Definition spec_C05x (sc : escen) (ob : eobs) : bool := spec_C05 sc ob && fw_clause sc ob.
